@@ -356,3 +356,23 @@ pub fn exec_approx<S: Sc + BaseFloat>(op: &str, f: &str, a: &[Val<S>]) -> Option
 pub fn exec_flt_misc<S: Sc + BaseFloat>(op: &str, f: &str, a: &[Val<S>]) -> Option<Val<S>> {
     exec_approx(op, f, a)
 }
+
+// ---------------------------------------------------------------- Bounded (spec growth, not owned by a listed property)
+pub fn exec_bounded<S: Sc + num_traits::Bounded>(op: &str, _f: &str, a: &[Val<S>]) -> Option<Val<S>> {
+    use num_traits::Bounded;
+    if op != "bounded" { return None; }
+    let ty = match a.first() { Some(Val::T(t)) => t.as_str(), _ => return None };
+    let (lo, hi) = (S::min_value(), S::max_value());
+    Some(Val::B(match ty {
+        "Vector1" => Vector1::<S>::min_value() == Vector1::from_value(lo) && Vector1::<S>::max_value() == Vector1::from_value(hi),
+        "Vector2" => Vector2::<S>::min_value() == Vector2::from_value(lo) && Vector2::<S>::max_value() == Vector2::from_value(hi),
+        "Vector3" => Vector3::<S>::min_value() == Vector3::from_value(lo) && Vector3::<S>::max_value() == Vector3::from_value(hi),
+        "Vector4" => Vector4::<S>::min_value() == Vector4::from_value(lo) && Vector4::<S>::max_value() == Vector4::from_value(hi),
+        "Point1" => Point1::<S>::min_value() == Point1::new(lo) && Point1::<S>::max_value() == Point1::new(hi),
+        "Point2" => Point2::<S>::min_value() == Point2::new(lo, lo) && Point2::<S>::max_value() == Point2::new(hi, hi),
+        "Point3" => Point3::<S>::min_value() == Point3::new(lo, lo, lo) && Point3::<S>::max_value() == Point3::new(hi, hi, hi),
+        "Rad" => Rad::<S>::min_value().0 == lo && Rad::<S>::max_value().0 == hi,
+        "Deg" => Deg::<S>::min_value().0 == lo && Deg::<S>::max_value().0 == hi,
+        _ => return None,
+    }))
+}
